@@ -108,7 +108,11 @@ impl BaseElement {
         let z = (s_hi << 32) - s_hi;
         let (res, over) = s_lo.overflowing_add(z);
 
-        BaseElement::from_mont(res.wrapping_add(0u32.wrapping_sub(over as u32) as u64))
+        let res = res.wrapping_add(0u32.wrapping_sub(over as u32) as u64);
+
+        // final reduction: res < 2^64 < 2M, so one conditional subtraction gives the canonical value
+        let (reduced, borrow) = res.overflowing_sub(M);
+        BaseElement::from_mont(reduced.wrapping_add(M & 0u64.wrapping_sub(borrow as u64)))
     }
 }
 
